@@ -50,14 +50,14 @@ func RandomHistories(w *WorldJSON, seed int64, n, depth int, routers []string, f
 				return out
 			}
 			// productive prefix: token-centred mixes start from completed code flows of one or two clients
-			if focus == "exchange" || focus == "tokenuse" || focus == "refresh" || focus == "logout" || focus == "issue" {
+			if focus == "exchange" || focus == "tokenuse" || focus == "refresh" || focus == "logout" || focus == "issue" || focus == "faults" {
 				for _, c := range [][]string{{"cw"}, {"cx"}, {"cw", "cx"}, {"cx", "cp"}, {"cj", "cw"}}[rng.Intn(5)] {
 					g.codeFlow(c, emit)
 				}
 			}
 			for s := 0; s < depth; s++ {
 				op, args := g.next()
-				if fm := faultMethods[op]; len(fm) > 0 && rng.Intn(10) == 0 {
+				if fm := faultMethods[op]; len(fm) > 0 && (rng.Intn(10) == 0 || (focus == "faults" && rng.Intn(3) == 0)) {
 					// C10: a storage call fails while this request is served
 					args["fault"] = fm[rng.Intn(len(fm))]
 				}
